@@ -18,7 +18,7 @@ from .common import REPO, ROOT
 
 RULE = (
 	'both shipped schema sets x PYTHONHASHSEED values (0, 1, 2, VERIF_SEED-derived ...) x working directories (sdk/python as the script does, '
-	'repo root, a scratch directory) x relative/absolute --schema/--include x fresh/pre-populated output directory; every line of both generated '
+	'repo root, a scratch directory) x relative/absolute --schema/--include x fresh output directory / output directory holding a leftover __init__.py (unrelated text, the expected file itself, its CRLF / CR / BOM / non-UTF-8 / truncated / no-final-newline / trailing-blank variants, the module of the other network, an empty file); every line of both generated '
 	'modules compared with the checked-in file. distinct = distinct (network, seed, cwd, path style, stale) configurations; all non-trivial '
 	'(each runs the full parser + generator).')
 TRUSTED_BASE = [
@@ -30,6 +30,24 @@ TRUSTED_BASE = [
 ASSUMPTIONS = ['the generator is run with /venv/bin/python; other interpreter versions are out of scope']
 
 NETWORKS = {'symbol': 'sc', 'nem': 'nc'}
+STALE_STYLES = ['garbage', 'identical', 'crlf', 'cr', 'bom', 'non-utf8', 'truncated', 'no-final-newline', 'trailing-blanks', 'other-network', 'empty']
+
+
+def stale_content(style, expected, other_module):
+	"""Content of an `__init__.py` left in the output directory before the run."""
+	return {
+		'garbage': b'# left over from a previous run\n' * 50,
+		'identical': expected,
+		'crlf': expected.replace(b'\n', b'\r\n'),
+		'cr': expected.replace(b'\n', b'\r'),
+		'bom': b'\xef\xbb\xbf' + expected,
+		'non-utf8': expected[:2000] + b'\xff\xfe\x80' + expected[2000:],
+		'truncated': expected[:-137],
+		'no-final-newline': expected.rstrip(b'\n'),
+		'trailing-blanks': expected.replace(b':\n', b': \n'),
+		'other-network': other_module,
+		'empty': b'',
+	}[style]
 
 
 def run_generator(network, hash_seed, cwd, relative, output, extra_env=None):
@@ -152,21 +170,29 @@ def run(ctx):
 		configurations.insert(1, (seeds[1], other, False, False))
 		configurations.append((seeds[0], other, True, False))
 		configurations.append((seeds[0], cwds[1], True, False))
-		configurations.append((seeds[-1], cwds[0], True, True))
-		configurations.append((seeds[1], cwds[2], False, True))
+		configurations.append((seeds[-1], cwds[0], True, 'garbage'))
+		configurations.append((seeds[1], cwds[2], False, 'garbage'))
+		# what a previous run may have left in the output directory: the result must not depend on it. Besides unrelated text, the
+		# leftovers are near misses of the expected file (line-end style, encoding, truncation, the other network's module), which a
+		# "skip the write when nothing changed" shortcut would have to tell apart
+		leftovers = [(seeds[index % len(seeds)], cwds[index % len(cwds)], bool(index % 2), style) for index, style in enumerate(STALE_STYLES[1:])]
 		if not ctx.thorough:
 			configurations = configurations[:3] + rng.sample(configurations[3:], 5)
+		configurations += leftovers
 		outputs = {}
+		other_package = NETWORKS['nem' if 'symbol' == network else 'symbol']
+		with open(os.path.join(REPO, 'sdk', 'python', 'symbolchain', other_package, '__init__.py'), 'rb') as infile:
+			other_module = infile.read()
 		for index, (seed, cwd, relative, stale) in enumerate(configurations):
 			output = os.path.join(scratch, f'out-{network}-{index}')
 			if stale:
 				os.makedirs(output)
-				with open(os.path.join(output, '__init__.py'), 'wt', encoding='utf8') as outfile:
-					outfile.write('# left over from a previous run\n' * 50)
+				with open(os.path.join(output, '__init__.py'), 'wb') as outfile:
+					outfile.write(stale_content(stale, shipped, other_module))
 				with open(os.path.join(output, 'stale.txt'), 'wt', encoding='utf8') as outfile:
 					outfile.write('stale')
 			proc = run_generator(network, seed, cwd, relative, output)
-			config = {'network': network, 'hash_seed': seed, 'cwd': os.path.relpath(cwd, REPO) if cwd.startswith(REPO) else '<scratch>', 'relative_paths': relative, 'stale_output': stale}
+			config = {'network': network, 'hash_seed': seed, 'cwd': os.path.relpath(cwd, REPO) if cwd.startswith(REPO) else '<scratch>', 'relative_paths': relative, 'stale_output': stale or None}
 			ctx.case(tuple(sorted(config.items())), config if index < 2 else None)
 			ctx.count(f'runs:{network}')
 			if 0 != proc.returncode:
@@ -177,7 +203,7 @@ def run(ctx):
 			outputs[index] = produced
 			if produced != shipped:
 				diff = list(difflib.unified_diff(
-					shipped.decode('utf8').split('\n'), produced.decode('utf8').split('\n'), 'checked-in', 'generated', lineterm='', n=1))[:40]
+					shipped.decode('utf8').split('\n'), produced.decode('utf8', 'replace').split('\n'), 'checked-in', 'generated', lineterm='', n=1))[:40]
 				ctx.fail('property', f'{network}: generator output differs from the checked-in symbolchain/{package}/__init__.py for {config}', dict(config, diff=diff))
 			shutil.rmtree(output, ignore_errors=True)
 		if len(set(outputs.values())) > 1:
